@@ -530,7 +530,7 @@ def main(tier, seed):
                   "words": "1..3 (<= 16 data bits)", "catalogue_entries": len(chosen), "of": len(entries),
                   "hardware_data_widths": "1,4,8; 16 only for crc_width <= 16 (z3 does not finish the 16-bit XOR-network equivalence above that within 300 s: stated as outside)", "match": "widths <= 32 that are a whole number of words; 1-2 message words",
                   "outside": "crc_width > 8 with symbolic parameters; messages longer than the bound (covered inductively by the step obligation); "
-                             "'no other trailer matches' is claimed for catalogue entries only (needs an odd polynomial)"}
+                             "'no other trailer matches' is claimed for odd polynomials only (all catalogue entries; without an x**0 term a register step is not injective)"}
     rep.stubs = ["Parameters objects with symbolic fields are built without running Algorithm.__init__ (validation of concrete ints)",
                  "HSignalState", "if-converting interpreter"]
     rep.assumptions = ["transmission order of the CRC = register bits highest order first, packed into words as the input side unpacks them"]
